@@ -28,6 +28,10 @@ pub enum H {
     /// RUN, and after k instructions the host loads file G by itself (set_listing while the old
     /// program is running or waiting for input)
     HostLoad { k: u64 },
+    /// the host takes a `get_listing()` snapshot and keeps it
+    Snap,
+    /// the host hands the most recent snapshot back (`set_listing(snapshot, false)`, an "undo")
+    Restore,
 }
 
 #[derive(Clone)]
@@ -182,6 +186,17 @@ impl Case for C04Case {
                         edited_since_stop = false;
                     }
                     stopped_once = true;
+                }
+                H::Snap => {
+                    w.snap_take();
+                }
+                H::Restore => {
+                    let last = w.snaps.len();
+                    if last > 0 && w.snap_restore(last - 1) {
+                        w.stats.bump("fault.edit");
+                        w.stats.bump("c04.snapshot_restored");
+                        edited_since_stop = true;
+                    }
                 }
                 H::Load { name, lines } => {
                     w.disk.insert(name.clone(), lines.clone());
@@ -358,6 +373,8 @@ impl Case for C04Case {
                 H::StopRun { line, intr: Some(k) } => Json::Str(format!("type {:?}, Ctrl-C after {} instructions", line, k)),
                 H::StopRun { line, intr: None } => Json::Str(format!("type {:?} and let it stop by itself", line)),
                 H::Load { name, lines } => obj().set("load_file", name.clone()).set("lines", lines.clone()).build(),
+                H::Snap => Json::Str("the host takes a get_listing() snapshot and keeps it".into()),
+                H::Restore => Json::Str("the host hands its latest snapshot back: set_listing(snapshot, false)".into()),
                 H::HostLoad { k } => Json::Str(format!("type \"RUN\"; {} instructions later the host calls set_listing(file G) by itself", k)),
             })
             .collect();
@@ -558,6 +575,27 @@ impl Property for C04 {
                     });
                 }
             }
+        }
+        if rng.pct(10) {
+            // snapshots handed back: taken at a random point (before or after something compiled the
+            // program), restored after later edits and runs
+            let at = rng.usize(history.len() + 1);
+            history.insert(at, H::Snap);
+            if rng.pct(60) {
+                history.push(H::Line {
+                    text: edit_line(rng, &prog, &cfg),
+                    must_not_edit: false,
+                    budget: 500,
+                });
+            }
+            if rng.pct(60) {
+                history.push(H::StopRun {
+                    line: "RUN".into(),
+                    intr: if rng.pct(50) { Some(rng.below(250)) } else { None },
+                });
+            }
+            let at2 = at + 1 + rng.usize(history.len() - at);
+            history.insert(at2, H::Restore);
         }
         if rng.pct(8) && !prog.lines.is_empty() {
             // self-editing program: insert the editing line early, run, then probe
